@@ -334,3 +334,186 @@ def _ev(e, val):
         if d == 'sqrt':
             return math.sqrt(args[0])
     raise ValueError('cannot evaluate %s' % fmt(e))
+
+
+# ------------------------------------------------------------------------------------------ closed-form identities (sympy)
+_SP = []
+
+
+def _sympy():
+    """sympy is imported in place from the offline wheelhouse (pure wheels, zipimport); used only to normalise closed-form expressions."""
+    if not _SP:
+        import sys
+        import glob
+        try:
+            import sympy  # noqa
+        except ImportError:
+            for pat in ('mpmath-*.whl', 'sympy-*.whl'):
+                hits = sorted(glob.glob('/opt/veriftools/wheels/' + pat))
+                if not hits:
+                    raise AnalysisError('sympy / mpmath wheel not found in /opt/veriftools/wheels')
+                sys.path.insert(0, hits[-1])
+            import sympy  # noqa
+        _SP.append(sympy)
+    return _SP[0]
+
+
+def to_sympy(e, sym):
+    """IR expression -> sympy expression; sym maps variable names (and the text of opaque sub-expressions) to symbols."""
+    sp = _sympy()
+    k = e[0]
+    if k == 'num':
+        return sp.nsimplify(e[1]) if isinstance(e[1], float) else sp.Integer(e[1])
+    if k == 'var':
+        if e[1] not in sym:
+            raise ValueError('free variable %s' % e[1])
+        return sym[e[1]]
+    if k == 'un' and e[1] == 'neg':
+        return -to_sympy(e[2], sym)
+    if k == 'bin' and e[1] in ('+', '-', '*', '/', '**'):
+        a, b = to_sympy(e[2], sym), to_sympy(e[3], sym)
+        return {'+': a + b, '-': a - b, '*': a * b, '/': a / b, '**': a ** b}[e[1]]
+    if k == 'call':
+        txt = fmt(e)
+        if txt in sym:
+            return sym[txt]
+        d = (dotted(e[1]) or '').split('.')[-1]
+        args = [to_sympy(a, sym) for a in e[2]]
+        if d == 'exp' and len(args) == 1:
+            return sp.exp(args[0])
+        if d == 'log' and len(args) == 1:
+            return sp.log(args[0])
+        if d == 'sqrt' and len(args) == 1:
+            return sp.sqrt(args[0])
+        if d == 'power' and len(args) == 2:
+            return args[0] ** args[1]
+    raise ValueError('cannot convert %s' % fmt(e))
+
+
+def _subst_var(e, name, repl):
+    if e == ('var', name):
+        return repl
+    if isinstance(e, tuple):
+        return tuple(_subst_var(x, name, repl) if isinstance(x, (tuple, list)) else x for x in e)
+    if isinstance(e, list):
+        return [_subst_var(x, name, repl) if isinstance(x, (tuple, list)) else x for x in e]
+    return e
+
+
+def _residual(expr):
+    """-> (is_zero, simplified residual, sample) ; a non-zero verdict always carries a numeric sample point."""
+    sp = _sympy()
+    r = sp.simplify(expr)
+    if r == 0:
+        return True, r, None
+    free = sorted(r.free_symbols, key=lambda x: x.name)
+    pts = [{x: sp.Rational(3 + 2 * i, 7 + i) for i, x in enumerate(free)}, {x: sp.Rational(5 + i, 11 + 3 * i) for i, x in enumerate(free)}]
+    for pt in pts:
+        try:
+            v = complex(sp.N(r.subs(pt)))
+        except Exception:  # noqa
+            continue
+        if abs(v) > 1e-9:
+            return False, r, {str(k_): str(v_) for k_, v_ in pt.items()}
+    return None, r, None
+
+
+def _blocks_with(stmts, names):
+    """Yield statement lists (blocks) that directly contain assignments to all the given names."""
+    def walk(block):
+        got = {}
+        for s in block:
+            if s.k == 'assign' and s.target[0] == 'var' and s.target[1] in names:
+                got[s.target[1]] = s
+        if len(got) == len(names):
+            yield got
+        for s in block:
+            if s.k == 'if':
+                yield from walk(s.then)
+                yield from walk(s.els)
+    yield from walk(stmts)
+
+
+def rule_squash_zero_offset(ctx, m):
+    """keep_sign subtracts Xz, the value of the same squashing function at 0: in every branch Xz must be `result` with X := 0."""
+    sp = _sympy()
+    pm = m.py('dtaidistance.similarity')
+    g = pm.funcs.get('squash')
+    if g is None:
+        raise AnalysisError('anchor vanished: similarity.squash')
+    symtab = {'r': sp.Symbol('r', positive=True), 'x0': sp.Symbol('x0', real=True), 'base': sp.Symbol('base', positive=True), 'X': sp.Symbol('X', real=True)}
+    n = 0
+    for name, body in sorted(_chain(g, 'method').items()):
+        for got in _blocks_with(body, ('result', 'Xz')):
+            n += 1
+            res, xz = got['result'].value, got['Xz'].value
+            based = any(x == ('var', 'base') for x in walk_expr(res))
+            inst = 'squash[%s%s] Xz = result at X = 0' % (name, ' base' if based else '')
+            try:
+                diff = to_sympy(xz, symtab) - to_sympy(_subst_var(res, 'X', ('num', 0)), symtab)
+            except ValueError as ex:
+                ctx.undecided('R-DUAL', inst, str(ex))
+                continue
+            z, r, pt = _residual(diff)
+            if z:
+                ctx.held('R-DUAL', inst, 'sympy: residual simplifies to 0')
+            elif z is None:
+                ctx.undecided('R-DUAL', inst, 'residual %s not decided' % r)
+            else:
+                ctx.violation('R-DUAL', pm.path, 'squash', 'zero offset %s%s' % (name, ' base' if based else ''),
+                              'with keep_sign the output is sign(X) * (f(|X|) - Xz); Xz = %s is not f(0) for f = %s (difference %s, non-zero e.g. at %s): small inputs '
+                              'change sign / the function is no longer the documented one' % (fmt(xz), fmt(res), r, pt), got['Xz'].line, facts={'witness': pt})
+    ctx.check(n >= 6, 'R-DUAL', pm.path, 'squash', 'zero-offset pairs', 'expected a (result, Xz) pair in each of the 3 methods x (e, base) branches; found %d' % n, g.line)
+
+
+def rule_cover_quantile(ctx, m):
+    """A scale derived from cover_quantile=(q, target) must make the transform take the value `target` at the q-quantile of the data."""
+    sp = _sympy()
+    pm = m.py('dtaidistance.similarity')
+    t = sp.Symbol('t', positive=True)
+    Q = sp.Symbol('Q', positive=True)
+    n = 0
+    for fname, out, data in (('distance_to_similarity', 'S', 'D'), ('squash', 'result', 'X')):
+        f = pm.funcs.get(fname)
+        if f is None:
+            raise AnalysisError('anchor vanished: similarity.%s' % fname)
+        qtxt = 'np.quantile(%s, cover_quantile)' % data
+        for name, body in sorted(_chain(f, 'method').items()):
+            # parameters solved from the quantile: `if cover_quantile is False: p = default  else: p = SOLVE`
+            solved = {}
+            pre = {}
+            for s in body:
+                if s.k == 'assign' and s.target[0] == 'var' and s.value[0] == 'num':
+                    pre[s.target[1]] = s.value            # e.g. x0 = 0 (not supported for this method)
+            for s in walk_stmts(body):
+                if s.k == 'if' and fmt(s.cond).replace('(', '').replace(')', '') == 'cover_quantile is False' and len(s.els) == 1 and s.els[0].k == 'assign':
+                    solved[s.els[0].target[1]] = s.els[0]
+            if not solved:
+                continue
+            for e_stmt in [s for s in walk_stmts(body) if s.k == 'assign' and s.target == ('var', out)]:
+                e = e_stmt.value
+                based = any(x == ('var', 'base') for x in walk_expr(e))
+                symtab = {'r': sp.Symbol('r', positive=True), 'a': sp.Symbol('a', positive=True), 'x0': sp.Symbol('x0', real=True),
+                          'base': sp.Symbol('base', positive=True), 'cover_quantile_target': t, qtxt: Q, data: Q}
+                for k_, v_ in pre.items():
+                    symtab[k_] = to_sympy(v_, symtab)
+                try:
+                    for p, st in solved.items():
+                        symtab[p] = to_sympy(st.value, symtab)
+                    val = to_sympy(e, symtab)
+                except ValueError as ex:
+                    ctx.undecided('R-MON', '%s[%s] cover_quantile' % (fname, name), str(ex))
+                    continue
+                n += 1
+                inst = '%s[%s%s] value at the covered quantile == target' % (fname, name, ' base' if based else '')
+                z, r, pt = _residual(val - t)
+                if z:
+                    ctx.note('%s: sympy proves the quantile-derived scale reaches the target' % inst)
+                elif z is None:
+                    ctx.note('%s: not decided (residual %s)' % (inst, r))
+                else:
+                    # C19 as stated does not promise that the target is reached (only monotonicity, range, explicit-parameter formulas and
+                    # reproducibility), so a miss is reported for the reader, never as a violation of the property
+                    ctx.note('%s[%s%s]: with cover_quantile=(q, target) the derived %s does not make %s equal `target` at the q-quantile (target + (%s)); '
+                             'outside the statement of C19' % (fname, name, ' base' if based else '', '/'.join(sorted(solved)), fmt(e), r))
+    ctx.count('cover_quantile derivations examined (informational)', n)
